@@ -163,7 +163,9 @@ var (
 	// near-colliding renderings: values that differ only past the sixth decimal (%032f keeps six), subnormals, -0 / 0,
 	// neighbours in the last ulp, very large magnitudes
 	floatsNear = []float64{1e-7, 2e-7, 0.1234567, 0.1234568, 5e-324, 1e-323, 0, math.Copysign(0, -1), 1, math.Nextafter(1, 2),
-		1e300, math.Nextafter(1e300, 2e300), 1e30, math.Nextafter(1e30, 2e30), 2.5, 2.5000001, 1048576.75, 1048576.7500001}
+		1e300, math.Nextafter(1e300, 2e300), 1e30, math.Nextafter(1e30, 2e30), 2.5, 2.5000001, 1048576.75, 1048576.7500001,
+		// more than six decimals next to values with another number of integer digits
+		10.5, 2.7654321, 2.1234567, 10.25, 123.4567891, 3, 99.99999999, 100.0000001}
 	// the same digits as int64 and as text, texts that differ in outer white space or in leading zeros
 	digitTexts = []string{"5", "05", "5 ", " 5", "10", "-3"}
 	digitInts  = []int64{5, 10, -3}
